@@ -236,10 +236,10 @@ def v2_property(pid, tier, cfgs, cont, nontrivial, rule, level="model_checking",
                     continue
                 log("[%s] simple %s: recorded, %.1fs" % (pid, c2["name"], rec["wall"]))
                 files.append(rec["obs"])
-                if c2["ver"] == 1:
+                if True:
                     conf = v.attempt("trace validation " + c2["name"], conformance_simple, v, sc, c2, rec, 60 if tier == "quick" else 1500)
                     if conf:
-                        log("[%s] %s: trace validation against SimpleV1: %s" % (pid, c2["name"], conf))
+                        log("[%s] %s: trace validation against SimpleV%d: %s" % (pid, c2["name"], c2["ver"], conf))
                         v.cov.setdefault("conformance", {})[c2["name"]] = conf
         lap("monitor ...")
         viol, events = run_monitor(sc, files, v)
@@ -434,6 +434,8 @@ def check_C06(tier):
 def models_v1_grace(v, sc, binary):
     simple_model(v, sc, "MC_SimpleV1")
     simple_model(v, sc, "MC_SimpleV1_twinC07", expect="inv")
+    simple_model(v, sc, "MC_SimpleV2", module="SimpleV2")
+    simple_model(v, sc, "MC_SimpleV2_twin", expect="inv", module="SimpleV2")
     v1_model(v, sc, binary, mk1("v1gracelive", [2, 1], {2: 1, 1: 2}, 2, "rate", 2, 1, 1, graceful=True), spec="GraceSpec", properties=["C07_Live"])
 
 
@@ -691,9 +693,11 @@ def conformance_simple(v, sc, cfg, rec, limit=0):
     os.makedirs(sub, exist_ok=True)
     stage_specs(sub)
     shutil.copy(rec["obs"], os.path.join(sub, "trace.ndjson"))
+    module = "Trace_SimpleV%d" % cfg["ver"]
+    consts = "  SyncGraceful = FALSE\n  CompleteBeforeWait = FALSE\n" if cfg["ver"] == 1 else "  ReleaseBeforeHandle = FALSE\n"
     open(os.path.join(sub, "TS.cfg"), "w").write(
-        "SPECIFICATION TSpec\nCONSTANTS\n  H = %d\n  Items = 100000\n  SyncGraceful = FALSE\n  CompleteBeforeWait = FALSE\n"
-        "INVARIANTS NotDone TraceInvariants\nVIEW TView\nCHECK_DEADLOCK FALSE\n" % cfg["H"])
+        "SPECIFICATION TSpec\nCONSTANTS\n  H = %d\n  Items = 100000\n%s"
+        "INVARIANTS NotDone TraceInvariants\nVIEW TView\nCHECK_DEADLOCK FALSE\n" % (cfg["H"], consts))
     starts, complete = [], set()
     cur = None
     for j, line in enumerate(open(rec["obs"]), 1):
@@ -715,11 +719,11 @@ def conformance_simple(v, sc, cfg, rec, limit=0):
     n = len(complete)
     if n == 0:
         return dict(traces=0, drift=0, note="no complete trace")
-    r = tlc(sub, "Trace_SimpleV1", cfg="TS.cfg", workers=8, timeout=1500, extra=["-continue"])
+    r = tlc(sub, module, cfg="TS.cfg", workers=8, timeout=1500, extra=["-continue"])
     tool_errors = [l for l in r.out.splitlines() if l.startswith("Error:") and "Invariant" not in l and "behavior up to this point" not in l]
     if not r.finished or r.distinct == 0 or tool_errors:
-        raise Inconclusive("trace validation TLC failed on Trace_SimpleV1 / %s: %s\n%s" % (cfg["name"], tool_errors[:2], r.out[-3000:]))
-    v.add_tlc(r, "Trace_SimpleV1 %s (trace validation of recorded v1 Simple runs against SimpleV1, silent steps searched)" % cfg["name"])
+        raise Inconclusive("trace validation TLC failed on %s / %s: %s\n%s" % (module, cfg["name"], tool_errors[:2], r.out[-3000:]))
+    v.add_tlc(r, "%s %s (trace validation of recorded Simple runs against SimpleV%d, silent steps searched)" % (module, cfg["name"], cfg["ver"]))
     acc, hits = set(), 0
     for inv, t0 in parse_violations(r.out, "t0"):
         if inv == "NotDone":
@@ -728,7 +732,7 @@ def conformance_simple(v, sc, cfg, rec, limit=0):
             hits += 1
     conf = dict(traces=n, accepted=len(acc), drift=n - len(acc), spec_invariant_hits=hits)
     if n - len(acc):
-        v.notes.append("DRIFT (not a verdict): SimpleV1.tla cannot explain %d of %d recorded %s traces" % (n - len(acc), n, cfg["name"]))
+        v.notes.append("DRIFT (not a verdict): SimpleV%d.tla cannot explain %d of %d recorded %s traces" % (cfg["ver"], n - len(acc), n, cfg["name"]))
     return conf
 
 
@@ -880,22 +884,23 @@ def has(t, *names):
     return any(n in t.get("kinds", ()) for n in names)
 
 
-def simple_model(v, sc, cfg, expect=None):
+def simple_model(v, sc, cfg, expect=None, module="SimpleV1"):
     """SimpleV1.tla (main + deferred chain + gracefulStop helper + handlers): TLC on a static configuration; expect = None (must pass),
     "live" (regression twin: the liveness property must fail), "inv" (an invariant must fail)"""
     sub = os.path.join(sc, "sm-" + cfg)
     os.makedirs(sub, exist_ok=True)
     stage_specs(sub)
-    r = tlc(sub, "SimpleV1", cfg=cfg + ".cfg", workers=8, timeout=900)
+    r = tlc(sub, module, cfg=cfg + ".cfg", workers=8, timeout=900)
     if expect is None:
         if not r.ok:
-            raise Inconclusive("TLC: SimpleV1 / %s fails (a lead, not a verdict) or TLC failed\n%s" % (cfg, r.out[-2500:]))
-        v.add_tlc(r, "SimpleV1 %s (v1 simplified discipline: main, deferred chain, gracefulStop helper, handlers)" % cfg)
+            raise Inconclusive("TLC: %s / %s fails (a lead, not a verdict) or TLC failed\n%s" % (module, cfg, r.out[-2500:]))
+        v.add_tlc(r, "%s %s (%s)" % (module, cfg, "v1 simplified discipline: main, deferred chain, gracefulStop helper, handlers" if module == "SimpleV1"
+                                     else "v2 simplified discipline: handlers ranging over the inner discipline's output, Release after Handle"))
         return
     got = r.prop_violated if expect == "live" else bool(r.inv_violated)
     if not got:
-        raise Inconclusive("regression twin SimpleV1 / %s: expected a %s violation on the model of the defective variant" % (cfg, expect))
-    v.cov.setdefault("regression_twins", []).append("SimpleV1 %s: violated as expected (%s)" % (cfg, expect))
+        raise Inconclusive("regression twin %s / %s: expected a %s violation on the model of the defective variant" % (module, cfg, expect))
+    v.cov.setdefault("regression_twins", []).append("%s %s: violated as expected (%s)" % (module, cfg, expect))
 
 
 def models_C16(v, sc, binary):
